@@ -837,6 +837,27 @@ class MeshRegion:
         self.dx.centre = (self.psi_vals[2::2] - self.psi_vals[:-2:2])[:, numpy.newaxis]
         self.dx.ylow = (self.psi_vals[2::2] - self.psi_vals[:-2:2])[:, numpy.newaxis]
 
+        # dx on the radial cell faces (xlow and corners) is the step in psi between the
+        # cell centres either side of the face. At a face shared with another region the
+        # cell centre on the far side belongs to that region. At a radial boundary of the
+        # grid it is twice the step from the face to the adjacent cell centre, as
+        # expected by the one-sided differences in DDX(). Without these, dx.xlow and
+        # dx.corners were left as zeros and DDX() divided by zero at xlow and corners.
+        dx_faces = numpy.zeros(self.nx + 1)
+        dx_faces[1:-1] = self.psi_vals[3::2] - self.psi_vals[1:-2:2]
+        inner_region = self.getNeighbour("inner")
+        if inner_region is not None:
+            dx_faces[0] = self.psi_vals[1] - inner_region.psi_vals[-2]
+        else:
+            dx_faces[0] = 2.0 * (self.psi_vals[1] - self.psi_vals[0])
+        outer_region = self.getNeighbour("outer")
+        if outer_region is not None:
+            dx_faces[-1] = outer_region.psi_vals[1] - self.psi_vals[-2]
+        else:
+            dx_faces[-1] = 2.0 * (self.psi_vals[-1] - self.psi_vals[-2])
+        self.dx.xlow = dx_faces[:, numpy.newaxis]
+        self.dx.corners = dx_faces[:, numpy.newaxis]
+
         if self.psi_vals[0] > self.psi_vals[-1]:
             # x-coordinate is -psixy so x always increases radially across grid
             self.bpsign = -1.0
